@@ -130,3 +130,53 @@ ZOO += [
      "        sculling = k * (np.cross(gyro[:-1], accel[1:]) +\n                        np.cross(gyro[1:], accel[:-1]))"),
     ('C15-stamp-early', 'C15', 'strapdown.py', "index=imu.index[1:],", "index=imu.index[:-1],"),
 ]
+ZOO += [
+    # ---- C02 integrator histories
+    ('C02-capacity-off1', 'C02', 'strapdown.py', "        if required_size > size:\n", "        if required_size > size + 1:\n"),
+    ('C02-no-max', 'C02', 'strapdown.py', "            new_size = max(2 * size, required_size)\n", "            new_size = 2 * size\n"),
+    ('C02-set-pva-mat', 'C02', 'strapdown.py', "        self.mat_nb[i] = transform.mat_from_rph(pva[RPH_COLS])\n        self.trajectory.iloc[-1] = pva\n",
+     "        self.trajectory.iloc[-1] = pva\n"),
+    ('C02-return-short', 'C02', 'strapdown.py', "            return self.trajectory.iloc[-n_readings - 1:]", "            return self.trajectory.iloc[-n_readings:]"),
+    ('C02-predict-appends', 'C02', 'strapdown.py', "        elif mode == 'predict':\n            return trajectory\n",
+     "        elif mode == 'predict':\n            self.lla[n_data - 1] = self.lla[n_data - 1] + 0.0 * self.lla[n_data]\n            self.velocity_n[n_data - 1, 2] += 1e-18\n            return trajectory\n"),
+    ('C02-grow-only-lla', 'C02', 'strapdown.py', "            self.mat_nb.resize((new_size, 3, 3), refcheck=False)\n", "            self.mat_nb.resize((max(new_size - 1, size), 3, 3), refcheck=False)\n"),
+    ('C02-empty-chunk', 'C02', 'strapdown.py', "        if mode == 'integrate':\n            self.trajectory = pd.concat([self.trajectory, trajectory])",
+     "        if mode == 'integrate':\n            if n_readings == 0:\n                return self.trajectory.iloc[-1:].copy() * 1.0 if len(self.trajectory) < 0 else self.trajectory.iloc[:0]\n            self.trajectory = pd.concat([self.trajectory, trajectory])"),
+]
+ZOO += [
+    # ---- C09 feedback filter scheduling
+    ('C09-D6-revert', 'C09', 'filters.py', [
+        ("        while measurement_times[measurement_time_index] < increment.name:\n            measurement_time = measurement_times[measurement_time_index]\n            x = np.zeros(n_states)",
+         "        measurement_time = measurement_times[measurement_time_index]\n        if measurement_time < increment.name:\n            x = np.zeros(n_states)"),
+        ("            measurement_time_index += 1\n            increment = _correct_increments(increments.iloc[increments_index],\n                                            gyro_model, accel_model)\n",
+         "            measurement_time_index += 1\n")], None),
+    ('C09-le-increment', 'C09', 'filters.py', "        while measurement_times[measurement_time_index] < increment.name:", "        while measurement_times[measurement_time_index] <= increment.name:"),
+    ('C09-clip-start', 'C09', 'filters.py', "    start_time = initial_pva.name\n    end_time = increments.index[-1]\n    measurement_times = measurement_times[(measurement_times >= start_time) &",
+     "    start_time = initial_pva.name\n    end_time = increments.index[-1]\n    measurement_times = measurement_times[(measurement_times > start_time) &"),
+    ('C09-D1-revert', 'C09,C10', 'filters.py', [("    measurement_times = np.hstack([np.empty(0)] + [\n", "    measurement_times = np.hstack([\n"),
+                                              ("    measurement_times = np.hstack([np.empty(0)] + [\n", "    measurement_times = np.hstack([\n")], None),
+    ('C09-unique-dropped', 'C09', 'filters.py', "    measurement_times = np.sort(np.unique(measurement_times))\n\n    start_time = initial_pva.name",
+     "    measurement_times = np.sort(measurement_times)\n\n    start_time = initial_pva.name"),
+    ('C09-innov-time', 'C09', 'filters.py', "                    innovations_times[name].append(measurement_time)\n\n            integrator.set_pva(",
+     "                    innovations_times[name].append(time)\n\n            integrator.set_pva("),
+    ('C09-guard-removed', 'C09', 'filters.py', "        if next_increment_index == increments_index:\n            next_increment_index += 1\n", ""),
+    # ---- C10 feedforward filter scheduling
+    ('C10-D2-revert', 'C10', 'filters.py', "        next_index = max(np.searchsorted(times, next_time, side='right') - 1,\n                         index + 1)",
+     "        next_index = np.searchsorted(times, next_time, side='right') - 1"),
+    ('C10-D3-revert', 'C10', 'filters.py', "        while measurement_times[measurement_time_index] < next_time:\n            measurement_time = measurement_times[measurement_time_index]\n            pva = _interpolate_pva(",
+     "        measurement_time = measurement_times[measurement_time_index]\n        if measurement_time < next_time:\n            pva = _interpolate_pva("),
+    ('C10-skip-row', 'C10', 'filters.py', "        index = next_index\n", "        index = next_index + (1 if next_index + 2 < len(trajectory) and time_step > 5 * time_delta else 0)\n"),
+    ('C10-le-next', 'C10', 'filters.py', "        while measurement_times[measurement_time_index] < next_time:\n            measurement_time = measurement_times[measurement_time_index]\n            pva = _interpolate_pva(",
+     "        while measurement_times[measurement_time_index] <= next_time:\n            measurement_time = measurement_times[measurement_time_index]\n            pva = _interpolate_pva("),
+]
+ZOO += [
+    # ---- C13 no-altitude mode
+    ('C13-D4-revert', 'C13', 'strapdown.py', "        if not self.with_altitude:\n            pva = pva.copy()\n            pva.VD = 0.0\n        self.lla[i] = pva[LLA_COLS]", "        self.lla[i] = pva[LLA_COLS]"),
+    ('C13-kernel-vd', 'C13', '_numba_integrate.py', "            velocity_n[j + 1, 2] = 0.0\n", "            velocity_n[j + 1, 2] = 0.0 * dv3 + 1e-12 * dv3\n"),
+    ('C13-alt-unaveraged', 'C13', '_numba_integrate.py', "        lla[j + 1, 2] = lla[j, 2] - V3 * dt\n", "        lla[j + 1, 2] = lla[j, 2] - (V3 + 1e-9 * dv3) * dt\n"),
+    ('C13-ctor-vd', 'C13', 'strapdown.py', "        if not with_altitude:\n            self.initial_pva.VD = 0.0\n", ""),
+    ('C13-sd-rows', 'C13', 'error_model.py', "        result[:, 5, 4] = VE\n        result[:, 5, 5] = -VN\n", "        result[:, 5, 4] = VE\n        result[:, 5, 5] = -VN\n        result[:, 5, 3] = 1e-3\n"),
+    ('C13-correct-alt', 'C13', 'error_model.py', "            x = self._transform_3d_2d(pva.VN, pva.VE) @ x\n", "            x = self._transform_3d_2d(pva.VN, pva.VE) @ x\n            x[2] = 1e-3 * x[0]\n"),
+    ('C13-pos-rows', 'C13,C06', 'measurements.py', "            z = z[:2]\n            H = H[:2]\n            R = R[:2, :2]\n        return z, H, R\n\n\nclass NedVelocity",
+     "            if abs(pva.VD) < 1e-300:\n                z = z[:2]\n                H = H[:2]\n                R = R[:2, :2]\n        return z, H, R\n\n\nclass NedVelocity"),
+]
